@@ -149,7 +149,7 @@ func init() {
 	vx.Register(&vx.Prop{
 		ID:    "C16",
 		Level: "model_checking",
-		Rule: "all words of length <=3 (quick) / <=4 (thorough) over 20 record groups {known message; with 1 / 2 unlisted fields; two unknown messages; redefinition; zero-field definition without/with developer flag; developer fields; data for an undefined local type; bad definition; zero-field unknown message; unknown message with developer fields; explicit timestamp; known and unknown messages with compressed-timestamp headers} x every truncation offset x all 8 option combinations (logger x unknown fields x unknown messages). " +
+		Rule: "all words of length <=3 (quick) / <=4 (thorough) over 20 record groups {known message; with 1 / 2 unlisted fields; two unknown messages; redefinition; zero-field definition without/with developer flag; developer fields; data for an undefined local type; bad definition; zero-field unknown message; unknown message with developer fields; explicit timestamp; known and unknown messages with compressed-timestamp headers} x every truncation offset x all 8 option combinations (logger x unknown fields x unknown messages; whole streams also with the options passed in every order and repeated: 19 configurations). " +
 			"Most groups (re)define the same local type 1, so that words also cover redefinition of a slot from a known message with unlisted fields to an unknown or field-less message. Oracle: content, error text and bytes consumed equal the option-free run; lists absent when the option is off, sorted without duplicates when on; on success equal to the model counters, on failure completed <= reported <= completed + record in progress. states = distinct model counter states; transitions = records; traces = decodes compared",
 		Run: runC16,
 		Replay: func(raw json.RawMessage) (string, error) {
@@ -180,16 +180,34 @@ type c16Obs struct {
 	panicked string
 }
 
+// c16Configs: every option set in every order in which its options can be passed (an option must not undo
+// another), plus repeated options. Index 0 = no options; 1..7 = the canonical order logger, fields, messages.
+var c16Configs = func() [][]int {
+	cfg := [][]int{{}, {1}, {2}, {1, 2}, {4}, {1, 4}, {2, 4}, {1, 2, 4}}
+	cfg = append(cfg, []int{2, 1}, []int{4, 1}, []int{4, 2}, []int{1, 4, 2}, []int{2, 1, 4}, []int{2, 4, 1}, []int{4, 1, 2}, []int{4, 2, 1},
+		[]int{2, 2}, []int{4, 2, 4}, []int{2, 4, 2})
+	return cfg
+}()
+
+func cfgBits(opt int) int {
+	b := 0
+	for _, o := range c16Configs[opt] {
+		b |= o
+	}
+	return b
+}
+
 func c16Decode(b []byte, opt int) c16Obs {
 	var opts []fit.DecodeOption
-	if opt&1 != 0 {
-		opts = append(opts, fit.WithLogger(&nullLogger{}))
-	}
-	if opt&2 != 0 {
-		opts = append(opts, fit.WithUnknownFields())
-	}
-	if opt&4 != 0 {
-		opts = append(opts, fit.WithUnknownMessages())
+	for _, o := range c16Configs[opt] {
+		switch o {
+		case 1:
+			opts = append(opts, fit.WithLogger(&nullLogger{}))
+		case 2:
+			opts = append(opts, fit.WithUnknownFields())
+		case 4:
+			opts = append(opts, fit.WithUnknownMessages())
+		}
 	}
 	r := &countingReader{b: b}
 	res := safeDecode(r, opts...)
@@ -207,14 +225,8 @@ func c16Decode(b []byte, opt int) c16Obs {
 
 func optName(opt int) string {
 	var s []string
-	if opt&1 != 0 {
-		s = append(s, "logger")
-	}
-	if opt&2 != 0 {
-		s = append(s, "unknownFields")
-	}
-	if opt&4 != 0 {
-		s = append(s, "unknownMessages")
+	for _, o := range c16Configs[opt] {
+		s = append(s, map[int]string{1: "logger", 2: "unknownFields", 4: "unknownMessages"}[o])
 	}
 	if len(s) == 0 {
 		return "none"
@@ -287,9 +299,14 @@ func c16Check(word []int, cut int, onState func(h uint64)) (string, string) {
 	if base.uf != nil || base.um != nil {
 		return "unknown-item lists are populated although no option was given", "lists-without-option"
 	}
-	for opt := 1; opt < 8; opt++ {
-		o := c16Decode(stream, opt)
-		on := optName(opt)
+	ncfg := 8 // truncated streams: the 8 option sets in canonical order; whole streams: every order and repetition too
+	if cut < 0 {
+		ncfg = len(c16Configs)
+	}
+	for cfg := 1; cfg < ncfg; cfg++ {
+		o := c16Decode(stream, cfg)
+		on := optName(cfg)
+		opt := cfgBits(cfg)
 		if o.panicked != "" {
 			return fmt.Sprintf("options %s: Decode panics: %s", on, o.panicked), "panic"
 		}
@@ -393,8 +410,12 @@ func runC16(w *vx.W) {
 				on = func(h uint64) { states[h] = struct{}{} }
 			}
 			msg, class := c16Check(word, cut, on)
-			w.Eval(8)
-			w.Trace(8)
+			ne := int64(8)
+			if cut < 0 {
+				ne = int64(len(c16Configs))
+			}
+			w.Eval(ne)
+			w.Trace(ne)
 			w.Transition(int64(len(word)))
 			w.Distinct(vx.Hash(fmt.Sprint(word, cut)))
 			if msg != "" {
@@ -464,9 +485,10 @@ func c16Generic(stream []byte) (string, string) {
 	if base.uf != nil || base.um != nil {
 		return "unknown-item lists are populated although no option was given", "lists-without-option"
 	}
-	for opt := 1; opt < 8; opt++ {
-		o := c16Decode(stream, opt)
-		on := optName(opt)
+	for cfg := 1; cfg < len(c16Configs); cfg++ {
+		o := c16Decode(stream, cfg)
+		on := optName(cfg)
+		opt := cfgBits(cfg)
 		if o.panicked != "" {
 			return fmt.Sprintf("options %s: Decode panics: %s", on, o.panicked), "panic"
 		}
@@ -533,8 +555,8 @@ func c16GenericFamilies(w *vx.W) {
 		if !ok {
 			return true
 		}
-		w.Eval(8)
-		w.Trace(8)
+		w.Eval(int64(len(c16Configs)))
+		w.Trace(int64(len(c16Configs)))
 		w.Fam("mix-words-all-options", 1)
 		w.Distinct(vx.HashB(stream))
 		if msg, class := c16Generic(stream); msg != "" {
@@ -555,8 +577,8 @@ func c16GenericFamilies(w *vx.W) {
 		if !w.Mine(int64(i)) {
 			continue
 		}
-		w.Eval(8)
-		w.Trace(8)
+		w.Eval(int64(len(c16Configs)))
+		w.Trace(int64(len(c16Configs)))
 		w.Fam("files-all-options", 1)
 		if msg, class := c16Generic(it.B); msg != "" {
 			report(it.Name, it.B, msg, class)
